@@ -87,3 +87,77 @@ Section OppositeBound.
       * rewrite Hv. lra.
   Qed.
 End OppositeBound.
+
+(* the mirrored branch: the LOWER bound the row implies equals the variable's own UPPER bound *)
+Section OppositeBoundUpper.
+  Variables (inf : Q) (i j : nat) (lhs rhs aij val oldLo oldUp : Q) (t0 : st).
+  Let c := exact_cmps inf.
+  Let newLo := if Qltb' 0 aij then lhs / aij else rhs / aij.
+  Let newUp := if Qltb' 0 aij then rhs / aij else lhs / aij.
+
+  Hypothesis Hst : gcs t0 j = FIXED.
+  Hypothesis H2 : (Qleb newLo oldLo && Qleb oldUp newUp) = false.
+  Hypothesis H3 : Qeq_bool newLo newUp = false.
+  Hypothesis H4 : Qeq_bool newLo oldUp = true.
+
+  Lemma rs_decide_lower_meets_upper :
+    rs_decide c t0 i j lhs rhs aij val oldLo oldUp 0 =
+    if Qltb' 0 (gr t0 j) then rs_col_basic t0 i j val aij (Qeq_bool (lhs / aij) (gx t0 j))
+    else rs_slack_basic t0 i j 0 val false (Some ON_UPPER).
+  Proof.
+    unfold rs_decide. rewrite Hst. cbv zeta. fold newLo newUp.
+    unfold c. cbn [exact_cmps eqrel_f le_mf ge_pf]. rewrite H2, H3, H4. reflexivity.
+  Qed.
+
+  Hypothesis Ha : ~ aij == 0.
+  Hypothesis Hx : gx t0 j == oldUp.
+  Hypothesis Hv : val == gr t0 j.
+
+  Let t' := rs_decide c t0 i j lhs rhs aij val oldLo oldUp 0.
+
+  Theorem lower_meets_upper_signs :
+    (gy t' i < 0 -> rhs == aij * gx t' j) /\ (0 < gy t' i -> lhs == aij * gx t' j) /\
+    (gr t' j < 0 -> oldUp == gx t' j) /\ ~ 0 < gr t' j.
+  Proof.
+    unfold t'. rewrite rs_decide_lower_meets_upper.
+    apply Qeq_bool_iff in H4.
+    assert (Hlo : newLo == gx t0 j) by (rewrite Hx; exact H4).
+    destruct t0 as [x y s r cs rs]. unfold gx, gr, gy in *. cbn [sx sy ss sr scs srs] in *.
+    destruct (Qltb' 0 (vnth r j)) eqn:E.
+    - unfold Qltb' in E. apply negb_true_iff in E.
+      assert (Hpos : 0 < vnth r j).
+      { destruct (Qlt_le_dec 0 (vnth r j)) as [L|L]; [exact L|]. apply Qle_bool_iff in L. rewrite L in E. discriminate. }
+      unfold rs_col_basic. cbv beta iota zeta delta [set_x set_y set_s set_r set_cs set_rs gx gy gs gr gcs grs sx sy ss sr scs srs].
+      rewrite !vnth_qupd_same. unfold newLo in Hlo.
+      destruct (Qltb' 0 aij) eqn:Ea.
+      + unfold Qltb' in Ea. apply negb_true_iff in Ea.
+        assert (Hap : 0 < aij).
+        { destruct (Qlt_le_dec 0 aij) as [L|L]; [exact L|]. apply Qle_bool_iff in L. rewrite L in Ea. discriminate. }
+        assert (Hy : 0 < val / aij).
+        { rewrite Hv. apply Qlt_shift_div_l; [exact Hap|]. rewrite Qmult_0_l. exact Hpos. }
+        repeat split.
+        * intros Hc. lra.
+        * intros _. rewrite <- Hlo. field. exact Ha.
+        * intros Hc. lra.
+        * lra.
+      + unfold Qltb' in Ea. apply negb_false_iff in Ea. apply Qle_bool_iff in Ea.
+        assert (Hlt : aij < 0).
+        { destruct (Qlt_le_dec aij 0) as [L|L]; [exact L|]. exfalso. apply Ha. lra. }
+        assert (Hy : val / aij < 0).
+        { rewrite Hv. assert (E1 : vnth r j / aij == (- vnth r j) / (- aij)) by (field; exact Ha). rewrite E1.
+          apply Qlt_shift_div_r; [lra|]. lra. }
+        repeat split.
+        * intros _. rewrite <- Hlo. field. exact Ha.
+        * intros Hc. lra.
+        * intros Hc. lra.
+        * lra.
+    - unfold Qltb' in E. apply negb_false_iff in E. apply Qle_bool_iff in E.
+      unfold rs_slack_basic. cbv beta iota zeta delta [set_x set_y set_s set_r set_cs set_rs gx gy gs gr gcs grs sx sy ss sr scs srs].
+      rewrite !vnth_qupd_same.
+      repeat split.
+      * intros Hc. lra.
+      * intros Hc. lra.
+      * intros _. symmetry. exact Hx.
+      * rewrite Hv. lra.
+  Qed.
+End OppositeBoundUpper.
